@@ -9,6 +9,7 @@ import (
 	"time"
 
 	"github.com/henrylee2cn/erpc/v6/socket"
+	"github.com/henrylee2cn/erpc/v6/xfer"
 )
 
 // ---------------------------------------------------------------- fake connection (stub S-CONN)
@@ -28,6 +29,7 @@ type vxConn struct {
 	ended     bool // no more input will come: Read returns io.EOF when drained
 	closed    bool
 	closes    int
+	writesAtClose int
 	writes    [][]byte
 	failWrite error // if set, Write fails with it
 	local     vxAddr
@@ -97,6 +99,9 @@ func (c *vxConn) Write(p []byte) (int, error) {
 
 func (c *vxConn) Close() error {
 	c.mu.Lock()
+	if !c.closed {
+		c.writesAtClose = len(c.writes)
+	}
 	c.closed = true
 	c.closes++
 	c.mu.Unlock()
@@ -250,3 +255,22 @@ func vxRoutePush(p Peer, r *vxRoute, plugins ...Plugin) []string {
 func vxNewPeer(plugins ...Plugin) Peer {
 	return NewPeer(PeerConfig{}, plugins...)
 }
+
+// vxFilter is a registered transfer filter for root-package harnesses.
+type vxFilter struct{}
+
+func (vxFilter) ID() byte     { return 'v' }
+func (vxFilter) Name() string { return "vxroot" }
+func (vxFilter) OnPack(b []byte) ([]byte, error) {
+	r := make([]byte, 0, len(b)+1)
+	r = append(r, 0x7e)
+	return append(r, b...), nil
+}
+func (vxFilter) OnUnpack(b []byte) ([]byte, error) {
+	if len(b) == 0 || b[0] != 0x7e {
+		return nil, errors.New("vxroot: bad marker")
+	}
+	return b[1:], nil
+}
+
+func init() { xfer.Reg(vxFilter{}) }
